@@ -42,7 +42,7 @@ ANCHORS = ['pfhedge.nn.modules.loss:HedgeLoss.cash',
            'pfhedge.nn.modules.hedger:Hedger.price',
            'pfhedge._utils.operations:ensemble_mean']
 PYTEST_WORKLOAD = True  # thorough tier also runs /repo/tests with these passive monitors attached (DESIGN.md 2.7)
-DECIDING = ["cash.equivalent", "cash.bounds", "cash.qcvar_is_minus_risk", "price.is_minus_cash", "price.shift_equivariant", "price.entropic_equals_loss"]
+DECIDING = ["cash.history_independent", "cash.equivalent", "cash.bounds", "cash.qcvar_is_minus_risk", "price.is_minus_cash", "price.shift_equivariant", "price.entropic_equals_loss"]
 REQUIRED_BRANCHES = ["cash.erm_large_ax", "cash.default_search", "cash.closed_form", "cash.target_tensor", "cash.multi_column", "cash.constant_sample",
                      "price.clauses", "price.n_times>1"]
 
@@ -276,7 +276,13 @@ def drv_cash(ctx, k, rng):
         # certainty equivalent far outside the range of the *input* (but inside the range of input - target)
         args = (x + 25.0, torch.full_like(x, 25.0))
     try:
-        crit.cash(*args)
+        # the cash amount depends on the sample only, not on what was computed from the same tensors before
+        fresh = crit.cash(*[z.clone() if isinstance(z, torch.Tensor) else z for z in args])
+        crit(*args)
+        again = crit.cash(*args)
+        ctx.seen("cash.history_independent")
+        ctx.check("cash.history_independent", bit_equal(fresh, again), "cash_after_forward", f"{type(crit).__name__}.cash(x, target) differs after {type(crit).__name__}(x, target) "
+                  "was evaluated on the same tensors", sig=(type(crit).__name__, tk), fresh=fresh, again=again)
     except ValueError as ex:
         if "lower < upper" not in str(ex):
             raise
